@@ -148,17 +148,21 @@ def get_paths(inputs, outputs, *, allow_std=False):
         for image, output in access.items()
     }
     try:
-        fses = {
+        # Map each (image, partition) as written on the command line to the
+        # actual partition number, so that "img:1/foo" and "img:/foo" share a
+        # single FatFileSystem instance when partition 1 is the first FAT
+        # partition
+        numbers = {
             (image, part):
-                FatFileSystem(
-                    images[image].partitions[
-                        part if part != -1 else
-                        first_fat_partition(images[image])
-                    ].data
-                )
+                part if part != -1 else first_fat_partition(images[image])
             for image, part_nums in parts.items()
             for part in part_nums
         }
+        fses = {}
+        for (image, part), number in numbers.items():
+            if (image, number) not in fses:
+                fses[(image, number)] = FatFileSystem(
+                    images[image].partitions[number].data)
     except KeyError:
         raise FileNotFoundError(f'Partition {part} not found in {image}')
     try:
@@ -166,7 +170,7 @@ def get_paths(inputs, outputs, *, allow_std=False):
             path:
                 StdPath(for_write) if allow_std and path == '-' else
                 Path(path) if image is None else
-                fses[(image, part)].root / part_path
+                fses[(image, numbers[(image, part)])].root / part_path
             for path, image, part, part_path, for_write in paths
         }
     finally:
